@@ -202,6 +202,13 @@ package stack
 //@   loop 2: invariant 0 <= depth && depth < 6 && 0 <= i && (forall k :: 0 <= k && k <= depth ==> stack[k] != nil && fresh(stack[k]) && live(stack[k]) && (stack[k].Values == nil || fresh(stack[k].Values)))
 //@   loop 2: decreases closed - i
 
+// DefaultOpts reads the environment (GOROOT, GOPATH, home directory): outside
+// the verified subset; it returns the address of a composite literal.
+//@ func DefaultOpts
+//@   option assumed
+//@   modifies nothing
+//@   ensures result != nil && fresh(result)
+
 //@ func (*Opts).isValid
 //@   requires o != nil
 //@   modifies nothing
